@@ -28,6 +28,8 @@ use vgov::fixture::fresh_nexus;
 use vgov::model::{Dec, GovModel, Res};
 use vgov::pop::{self, Built, N, POP};
 
+const MINI: &[&str] = &["count-concepts", "search-alpha", "history-space", "primer", "export-concepts", "describe-tx-hidden", "as-of-before-labels"];
+
 const MATRIX_PERMS: &[&str] = &[
     "discover", "read", "search", "project", "read_history", "export", "read_raw_origin", "create",
     "update", "archive", "purge", "declassify", "manage_policy", "manage_grants", "read_audit",
@@ -317,11 +319,16 @@ async fn eval_config(
         // --- battery -----------------------------------------------------------
         let expected = clones.get(&readable, &masked).await;
         let taints = battery::taint_tokens(&readable, &masked);
+        // a Principal no record was ever about: default deny is confirmed on a
+        // few commands of different families instead of the whole battery
+        let untouched = !cfg.model.touches(who);
         for (index, item) in items.iter().enumerate() {
             if let Some((_, label)) = only {
                 if label != item.label {
                     continue;
                 }
+            } else if untouched && !MINI.contains(&item.label) {
+                continue;
             }
             let (command, actual, raw) = battery::run_one(&session, built, item, only.is_some()).await;
             tally.battery_answers += 1;
@@ -450,7 +457,7 @@ fn model_state(seq: &[Action]) -> Option<GovModel> {
 
 fn main() {
     let mut run = Run::from_args("C19", "nonint", "model_checking");
-    let items = battery::battery();
+    let items = if run.replay_file.is_some() { battery::battery() } else { battery::battery_for(run.tier == vcore::Tier::Quick) };
     let clones = Arc::new(Clones { items: items.clone(), cache: Mutex::new(HashMap::new()), built: Mutex::new(0) });
 
     // ---- replay ---------------------------------------------------------------
